@@ -12,7 +12,7 @@ import random
 from harness import tlc, core
 from harness.tlc import tla
 
-INVARIANTS = ['TypeOK', 'IsPartition', 'SharedIffSameEvent', 'ColsInjective', 'CombIsMeet',
+INVARIANTS = ['TypeOK', 'IsPartition', 'SharedIffSameEvent', 'ColsInjective', 'SlopeSharedIffSameEvent', 'SlopeColsInjective', 'CombIsMeet',
               'MaskExact', 'LabelsOwnEvent', 'IllegalRaises', 'LegalAccepted']
 
 FLAGS = dict(GetFixed=True, SliceFixed=True, RedeclFixed=True)   # transcription of the repaired code
